@@ -45,3 +45,10 @@ var ReflectOnly []*TypeEntry
 func RegisterReflectOnly(name string, zero any, xmlPath, expr, fam string) {
 	ReflectOnly = append(ReflectOnly, &TypeEntry{Group: "reflectonly", Name: name, Type: reflect.TypeOf(zero), XML: xmlPath, Expr: expr, Fam: fam})
 }
+
+// Conly are the compile-only shapes (`[]uint8` spellings): generated, compiled, driven by hand-written records only.
+var Conly []*TypeEntry
+
+func RegisterConly(name string, zero any, ins inspector.Inspector, expr string) {
+	Conly = append(Conly, &TypeEntry{Group: "conly", Name: name, Type: reflect.TypeOf(zero), Ins: ins, Expr: expr})
+}
